@@ -3,7 +3,7 @@
    int / long long intermediate fits its type. *)
 From Coq Require Import List ZArith Lia Bool Arith.
 Import ListNotations.
-Require Import CV.FreeSpace CV.Density CV.RowLegMachine CV.Transp1dMachine CV.DensityMachine.
+Require Import CV.FreeSpace CV.Density CV.DensityProofs CV.RowLegMachine CV.Transp1dMachine CV.DensityMachine.
 Local Open Scope Z_scope.
 
 Lemma d32 v : -2147483648 <= v < 2147483648 -> fits (I32, v).
@@ -69,21 +69,21 @@ Proof.
   split; [apply Z.mul_nonneg_nonneg; lia|apply Z.mul_le_mono_nonneg; lia].
 Qed.
 
-(* the intersection with a bin, when the rectangles intersect, is inside the region *)
-Lemma inter_facts reg b : rbox reg -> rintersects reg b = true ->
+(* the intersection with a proper bin, when the rectangles intersect, is inside the region *)
+Lemma inter_facts reg b : rbox reg -> proper b -> rintersects reg b = true ->
   let i := rintersection reg b in
-  0 < maxX i - minX i <= maxX reg - minX reg /\ 0 < maxY i - minY i <= maxY reg - minY reg /\ 0 < rarea i <= rarea reg.
+  0 <= maxX i - minX i <= maxX reg - minX reg /\ 0 <= maxY i - minY i <= maxY reg - minY reg /\ 0 <= rarea i <= rarea reg.
 Proof.
-  intros (A & B & C & D & E & F) H. unfold rintersects in H.
+  intros (A & B & C & D & E & F) [Bx By] H. unfold rintersects in H.
   apply andb_prop in H. destruct H as [H H4]. apply andb_prop in H. destruct H as [H H3]. apply andb_prop in H. destruct H as [H1 H2].
   apply Z.ltb_lt in H1, H2, H3, H4. cbn zeta. unfold rintersection, rarea, rwidth, rheight. cbn [minX maxX minY maxY].
-  split; [lia|]. split; [lia|]. nia.
+  split; [lia|]. split; [lia|]. split; [apply Z.mul_nonneg_nonneg; lia|apply Z.mul_le_mono_nonneg; lia].
 Qed.
 
-Lemma contrib_le reg b : rbox reg -> 0 <= contrib reg b <= rarea reg.
+Lemma contrib_le reg b : rbox reg -> proper b -> 0 <= contrib reg b <= rarea reg.
 Proof.
-  intros R. unfold contrib. destruct (rintersects reg b) eqn:E.
-  - pose proof (inter_facts reg b R E) as Q. cbn zeta in Q. lia.
+  intros R Pb. unfold contrib. destruct (rintersects reg b) eqn:E.
+  - pose proof (inter_facts reg b R Pb E) as Q. cbn zeta in Q. lia.
   - pose proof (rbox_area reg R). lia.
 Qed.
 
@@ -123,32 +123,34 @@ Proof.
   dfits.
 Qed.
 
-(* [F] updateBinCapacity(regions): the running capacity of every bin, whatever the bin limits are *)
-Lemma bin_acc_vals_fit b : forall regs acc, Forall rbox regs -> 0 <= acc -> acc + sumZ (map rarea regs) <= SUMB ->
+(* [F] updateBinCapacity(regions): the running capacity of every bin (bin limits non-decreasing) *)
+Lemma bin_acc_vals_fit b : proper b -> forall regs acc, Forall rbox regs -> 0 <= acc -> acc + sumZ (map rarea regs) <= SUMB ->
   Forall fits (bin_acc_vals b regs acc).
 Proof.
-  induction regs as [|reg r IH]; intros acc HR Ha Hs; cbn [bin_acc_vals]; [constructor|].
+  intros Pb. induction regs as [|reg r IH]; intros acc HR Ha Hs; cbn [bin_acc_vals]; [constructor|].
   inversion HR as [|? ? Hreg Hr]; subst. cbn [map sumZ fold_right] in Hs. fold (sumZ (map rarea r)) in Hs.
-  pose proof (contrib_le reg b Hreg) as Hc.
+  pose proof (contrib_le reg b Hreg Pb) as Hc.
   assert (Hrs : 0 <= sumZ (map rarea r)).
   { apply sumZ_nonneg. intros x Hx. apply in_map_iff in Hx. destruct Hx as (y & <- & Hy). rewrite Forall_forall in Hr. apply rbox_area, Hr, Hy. }
   apply Fapp.
   - destruct (rintersects reg b) eqn:E; [|constructor].
-    pose proof (inter_facts reg b Hreg E) as Q. cbn zeta in Q. destruct Q as (Q1 & Q2 & Q3).
+    pose proof (inter_facts reg b Hreg Pb E) as Q. cbn zeta in Q. destruct Q as (Q1 & Q2 & Q3).
     destruct Hreg as (A & B & C & D & E' & F).
     apply Fapp; [apply area_vals_fit; unfold COORD in *; lia|]. dfits.
   - apply IH; [exact Hr|lia|lia].
 Qed.
 
-Theorem capacity_vals_fit lx ly regs : Forall rbox regs -> sumZ (map rarea regs) <= SUMB -> Forall fits (capacity_vals lx ly regs).
+Theorem capacity_vals_fit lx ly regs : chainZ lx -> chainZ ly -> Forall rbox regs -> sumZ (map rarea regs) <= SUMB ->
+  Forall fits (capacity_vals lx ly regs).
 Proof.
-  intros HR Hs. unfold capacity_vals. apply Fflat. intros px _. apply Fflat. intros py _.
-  apply bin_acc_vals_fit; [exact HR|lia|lia].
+  intros Cx Cy HR Hs. unfold capacity_vals. apply Fflat. intros [p q] Hx. apply Fflat. intros [p' q'] Hy.
+  apply bin_acc_vals_fit; [|exact HR|lia|lia].
+  unfold proper, bin_region. cbn [minX maxX minY maxY fst snd]. split; [exact (pairs_chain_le lx p q Cx Hx)|exact (pairs_chain_le ly p' q' Cy Hy)].
 Qed.
 
 (* the sum hypothesis holds for up to 2^16 regions of the magnitude range (and for any number of pairwise disjoint ones,
    whose areas sum to at most 2^46 -- not proved here) *)
-Lemma regions_count_sum regs : Forall rbox regs -> (length regs <= 65536)%nat -> sumZ (map rarea regs) <= SUMB.
+Lemma regions_count_sum regs : Forall rbox regs -> Z.of_nat (length regs) <= 65536 -> sumZ (map rarea regs) <= SUMB.
 Proof.
   intros HR Hn. pose proof (sumZ_le_count (map rarea regs) (2 * COORD * (2 * COORD)) ltac:(unfold COORD; lia)) as Q.
   rewrite map_length in Q. etransitivity; [apply Q|].
@@ -184,7 +186,7 @@ Proof. exists (I32, 2147483648). split; [cbn; tauto|unfold fits; cbn; lia]. Qed.
 (* [F] Circuit::area(i) and the sum over the movable cells (expandCellsToDensity / expandCellsByFactor) *)
 Theorem cell_area_vals_fit wh :
   Forall (fun p => - 2 * COORD <= fst p <= 2 * COORD /\ - 2 * COORD <= snd p <= 2 * COORD /\ 0 <= fst p * snd p < 2147483648) wh ->
-  (length wh <= 2147483647)%nat -> Forall fits (cell_area_vals wh).
+  Z.of_nat (length wh) <= 2147483647 -> Forall fits (cell_area_vals wh).
 Proof.
   intros H Hn. rewrite Forall_forall in H. unfold cell_area_vals. apply Fapp.
   - apply Fflat. intros p Hp. destruct (H p Hp) as (A & B & C). set (a := fst p * snd p) in *. clearbody a. dfits.
@@ -198,7 +200,7 @@ Qed.
 (* [F] computeRowPlacementArea: the width after the margin is at most the row width; up to 2^16 free row segments *)
 Theorem row_area_vals_fit rows :
   Forall (fun rw => rbox (fst rw) /\ - 2 * COORD <= snd rw <= maxX (fst rw) - minX (fst rw)) rows ->
-  (length rows <= 65536)%nat -> Forall fits (row_area_vals rows).
+  Z.of_nat (length rows) <= 65536 -> Forall fits (row_area_vals rows).
 Proof.
   intros H Hn. rewrite Forall_forall in H. unfold row_area_vals. apply Fapp.
   - apply Fflat. intros rw Hrw. destruct (H rw Hrw) as ((A & B & C & D & E & F) & G1 & G2). dfits.
@@ -227,4 +229,65 @@ Example density_int_would_overflow :
   Forall inbox [0; 65536] /\ exists v, In (I64, v) (cap0_vals [0; 65536] [0; 65536]) /\ ~ fits (I32, v).
 Proof.
   split; [repeat constructor; unfold inbox, COORD; lia|]. exists 4294967296. split; [vm_compute; tauto|unfold fits; cbn; lia].
+Qed.
+
+(* ---------------------------------------------------------------- the constructor DensityGrid(binSize, regions) *)
+Require Import CV.SubdivMachine CV.SubdivMachineProofs.
+
+Lemma placement_area_rbox regions : Forall rbox regions -> regions <> [] -> rbox (placement_area regions).
+Proof.
+  intros H Hne. destruct regions as [|r rs]; [congruence|]. inversion H as [|? ? Hr Hrs]; subst. cbn [placement_area].
+  clear H Hne. revert r Hr. induction rs as [|x xs IH]; intros r Hr; cbn [fold_left]; [exact Hr|].
+  inversion Hrs as [|? ? Hx Hxs]; subst. apply IH; [exact Hxs|].
+  destruct Hr as (A & B & C & D & E & F). destruct Hx as (A' & B' & C' & D' & E' & F').
+  unfold rbox. cbn [minX maxX minY maxY]. lia.
+Qed.
+
+Lemma subdiv_in mn mx n x : mn <= mx -> 1 <= n -> In x (subdivisions mn mx n) -> mn <= x <= mx.
+Proof.
+  intros Hm Hn H. unfold subdivisions in H. apply in_map_iff in H. destruct H as (i & <- & Hi). apply in_seq in Hi.
+  destruct (iter_bounds mn mx n i Hm Hn ltac:(lia)) as [_ B]. lia.
+Qed.
+
+Lemma nb_bins_range len maxSize : 0 <= len -> 1 <= maxSize -> 1 <= nb_bins len maxSize <= Z.max 1 len.
+Proof.
+  intros Hl Hm. unfold nb_bins.
+  assert (0 <= Z.quot len maxSize <= len). { split; [apply Z.quot_pos; lia|]. apply Z.quot_le_upper_bound; [lia|]. nia. }
+  lia.
+Qed.
+
+(* [F] the whole constructor, for every non-empty list of regions of the magnitude range *)
+Theorem grid_vals_fit binSize regions : Forall rbox regions -> regions <> [] -> sumZ (map rarea regions) <= SUMB ->
+  1 <= binSize -> Forall fits (grid_vals binSize regions).
+Proof.
+  intros HR Hne Hs Hb. unfold grid_vals. pose proof (placement_area_rbox regions HR Hne) as Ha.
+  set (a := placement_area regions) in *. pose proof Ha as (A & B & C & D & E & F).
+  pose proof (nb_bins_range (rwidth a) binSize ltac:(unfold rwidth; lia) Hb) as Nx.
+  pose proof (nb_bins_range (rheight a) binSize ltac:(unfold rheight; lia) Hb) as Ny.
+  set (nx := nb_bins (rwidth a) binSize) in *. set (ny := nb_bins (rheight a) binSize) in *.
+  assert (Hnx : nx <= 2 * COORD) by (unfold rwidth, COORD in *; lia).
+  assert (Hny : ny <= 2 * COORD) by (unfold rheight, COORD in *; lia).
+  assert (Ix : Forall inbox (subdivisions (minX a) (maxX a) nx)).
+  { apply Forall_forall. intros x Hx. apply subdiv_in in Hx; [|lia|lia]. unfold inbox. lia. }
+  assert (Iy : Forall inbox (subdivisions (minY a) (maxY a) ny)).
+  { apply Forall_forall. intros x Hx. apply subdiv_in in Hx; [|lia|lia]. unfold inbox. lia. }
+  assert (Lx : zi (length (subdivisions (minX a) (maxX a) nx)) < 2147483647).
+  { rewrite subdiv_length. unfold zi, COORD in *. lia. }
+  assert (Ly : zi (length (subdivisions (minY a) (maxY a) ny)) < 2147483647).
+  { rewrite subdiv_length. unfold zi, COORD in *. lia. }
+  apply Fapp; [apply nb_bins_vals_fit; assumption|].
+  apply Fapp; [apply subdiv_no_overflow; unfold subdiv_dom, COORD in *; lia|].
+  apply Fapp; [apply subdiv_no_overflow; unfold subdiv_dom, COORD in *; lia|].
+  apply Fapp; [apply centers_vals_fit; assumption|].
+  apply Fapp; [apply centers_vals_fit; assumption|].
+  apply Fapp; [apply cap0_vals_fit; assumption|].
+  apply capacity_vals_fit; try assumption; apply subdiv_chain; lia.
+Qed.
+
+Example grid_nonvacuous :
+  Forall rbox ex_regs /\ ex_regs <> [] /\ sumZ (map rarea ex_regs) <= SUMB /\
+  length (grid_vals 2097152 ex_regs) = 280%nat /\ In (I64, 4398046511104) (grid_vals 2097152 ex_regs).
+Proof.
+  split; [repeat constructor; unfold rbox, COORD; cbn; lia|]. split; [discriminate|]. split; [vm_compute; discriminate|].
+  split; [vm_compute; reflexivity|]. vm_compute. tauto.
 Qed.
